@@ -141,6 +141,8 @@ fn curves(r: &mut Report) {
     let g: Vec<Point2> = (0..9).map(|k| Point2::new((k % 3) as f64, (k / 3) as f64)).collect();
     let mut qs = grid2(-1.0, 3.0, -1.0, 3.0, 0.5);
     qs.extend([Point2::new(100.0, -57.0), Point2::new(-40.0, 1.0), Point2::new(1.0, 64.0), Point2::new(0.75, 0.25), Point2::new(1.25, 1.75)]);
+    // EXTREMELY far outside (1e5 .. 1e8 x the size of the curve; tolerance 1e-9 relative to the distance)
+    qs.extend([Point2::new(-1.0e6, 2.0e6), Point2::new(3.0e7, 1.0e7), Point2::new(2.0e5, -1.0e5), Point2::new(1.0, -1.0e8)]);
     for a in 0..9 { for b in 0..9 {
         for fc in [false, true] {
             if let Ok(c) = Curve2::from_points(&[g[a], g[b]], 1e-6, fc) { check_curve2(r, "Curve2(2 grid points)", &c, &qs); }
@@ -164,6 +166,7 @@ fn curves(r: &mut Report) {
     let mut fq = grid2(-1.0, 17.0, -1.0, 5.0, 0.5);
     fq.extend(grid2(-0.25, 4.25, -0.25, 0.75, 0.125));
     fq.extend([p(2.0, h / 2.0), p(2.0, 1.5 * h), p(2.0, h), p(1.0, 0.25 * h), p(3.0, 1.75 * h), p(200.0, 100.0), p(-64.0, 0.125)]);
+    fq.extend([p(-1.0e6, 2.0e6), p(3.0e7, 1.0e7), p(2.0e6, -1.0e6), p(8.0, -1.0e8), p(-5.0e6, -4.0e6), p(1.0e7, 2.0)]);
     for (name, pts) in fam.iter() {
         for fc in [false, true] {
             if let Ok(c) = Curve2::from_points(pts, 1e-6, fc) { check_curve2(r, name, &c, &fq); }
@@ -173,6 +176,7 @@ fn curves(r: &mut Report) {
     let g3: Vec<Point3> = (0..8).map(|k| Point3::new((k % 2) as f64, ((k / 2) % 2) as f64, (k / 4) as f64)).collect();
     let mut q3 = grid3((-1.0, -1.0, -1.0), (2.0, 2.0, 2.0), (0.5, 0.5, 0.5));
     q3.extend([Point3::new(100.0, -57.0, 20.0), Point3::new(0.25, 0.75, 0.125), Point3::new(-30.0, 0.5, 0.5)]);
+    q3.extend([Point3::new(-1.0e6, 2.0e6, 0.0), Point3::new(3.0e7, 1.0e7, -2.0e7), Point3::new(2.0e5, -1.0e5, 3.0e5), Point3::new(0.5, 0.5, 1.0e8)]);
     for a in 0..8 { for b in 0..8 {
         if let Ok(c) = Curve3::from_points(&[g3[a], g3[b]], 1e-6) { check_curve3(r, "Curve3(2 cube corners)", &c, &q3); }
         for cc in 0..8 {
@@ -190,6 +194,7 @@ fn curves(r: &mut Report) {
     let mut fq3 = grid3((-1.0, -1.0, -1.0), (5.0, 3.0, 3.0), (0.5, 0.5, 0.5));
     fq3.extend(grid3((0.0, -0.25, -0.25), (16.0, 0.75, 0.5), (2.0, 0.125, 0.125)));
     fq3.extend([p3(2.0, 0.0, h / 2.0), p3(2.0, h / 2.0, h), p3(1.0, 0.75 * h, 0.25 * h), p3(200.0, 100.0, -50.0), p3(1.0, 1.0, 1.0), p3(1.0, 1.0, 4.0)]);
+    fq3.extend([p3(-1.0e6, 2.0e6, 0.0), p3(3.0e7, 1.0e7, -2.0e7), p3(2.0e6, -1.0e6, 3.0e6), p3(8.0, 0.25, 1.0e8), p3(-5.0e6, -4.0e6, 1.0e6), p3(1.0e7, 2.0, 1.0)]);
     for (name, pts) in fam3.iter() {
         if let Ok(c) = Curve3::from_points(pts, 1e-6) { check_curve3(r, name, &c, &fq3); }
     }
@@ -323,7 +328,8 @@ fn meshes(r: &mut Report) {
     let p = |x: f64, y: f64, z: f64| Point3::new(x, y, z);
     let shifted = |w: f64, h: f64, d: f64, s: (f64, f64, f64), solid: bool| { let mut b = Mesh::create_box(w, h, d, solid); b.transform(&Iso3::translation(s.0, s.1, s.2)); b };
     let in_box = |q: &Point3, lo: (f64, f64, f64), hi: (f64, f64, f64)| q.x > lo.0 && q.x < hi.0 && q.y > lo.1 && q.y < hi.1 && q.z > lo.2 && q.z < hi.2;
-    let far = [p(50.0, -30.0, 20.0), p(5.0, 1.5, 2.0), p(-4.0, -4.0, -4.0), p(1.0, 1.0, -3.0), p(1.0, 8.0, 2.0), p(0.75, 1.25, 1.125), p(0.125, 2.5, 3.875)];
+    let far = [p(50.0, -30.0, 20.0), p(5.0, 1.5, 2.0), p(-4.0, -4.0, -4.0), p(1.0, 1.0, -3.0), p(1.0, 8.0, 2.0), p(0.75, 1.25, 1.125), p(0.125, 2.5, 3.875),
+        p(-1.0e6, 2.0e6, 0.0), p(3.0e7, 1.0e7, -2.0e7), p(2.0e5, -1.0e5, 3.0e5), p(1.0, 1.5, 1.0e8)];
     let h = 1.0 / 1024.0;
     for solid in [false, true] {
         // 1. box
@@ -547,7 +553,7 @@ fn uv_wrappers(r: &mut Report) {
 }
 
 pub fn run() -> Option<Report> {
-    let mut r = Report::new("curves: all 2..=3-vertex sequences over the 3x3 grid (2D, x force_closed) / over {0,1}^3 (3D), 7 + 5 fixed polylines with 4..=33 vertices (long thin, nested, nearly coincident, self-crossing, doubled back); meshes: box, box + disjoint box, box + nested box, two-triangle strip, two nearly coincident triangles, long thin quad, solid and non-solid; queries on half/quarter-integer grids reaching 1 beyond the bounding box plus far-outside points (inside points for non-solid meshes only); caps 0.5*d, d+0.5, 2d+1, 0.25, 1.25, 5 (never within 1e-3 of the true distance d); max_angle in {0.1, 0.5, 1, 1.5, 2} rad with a 1e-6 rad undecided margin; transforms None / translation / quarter turn + translation; oracle = brute force over all segments / triangles, tolerance 1e-9 relative; NEAR-SURFACE: box 2x3x4 (solid and not), two-triangle strip, long thin quad, open roof x base points (every corner, two points inside every triangle edge, one inside every face) x 30 offset directions (6 axes, 24 of type (+-1,+-2,+-3)) x offsets 1e-7, 1e-6, 1e-5, 1e-4, 1e-3, 1e-2: closest point / distance / normal and Mesh::measure_point_deviation (ToPoint magnitude and sign, ToPlane) against the brute-force distance (below the documented 1e-6 epsilon the ToPoint magnitude is judged to 1e-6); UV WRAPPERS: Mesh::uv_with_tol on 3 UV-mapped meshes (open roof with the unfolded UV, two-triangle strip with uv = (x, y), box 2x3x4 with one chart per face) x integer / half-integer query grids reaching 1 beyond the bounding box plus far points (queries closer than 1e-6 skipped) x transform None / Some(translation) / Some(quarter turn + translation) / Some(0.7 rad about (1,2,3) + translation) / Some(1e-3 rad about x + translation) x caps {d+0.5, d/2, 0.25, 1.25} x max_angle {0.1, 0.5, 1, 1.5, 2}: nothing is returned beyond the cap, acceptance follows the angle of the offset of (transform * point) to the normal of the nearest face(s), uv / depth are those of a nearest non-rejecting face (brute force)");
+    let mut r = Report::new("curves: all 2..=3-vertex sequences over the 3x3 grid (2D, x force_closed) / over {0,1}^3 (3D), 7 + 5 fixed polylines with 4..=33 vertices (long thin, nested, nearly coincident, self-crossing, doubled back); meshes: box, box + disjoint box, box + nested box, two-triangle strip, two nearly coincident triangles, long thin quad, solid and non-solid; queries on half/quarter-integer grids reaching 1 beyond the bounding box plus far-outside points incl. EXTREMELY far ones (1e5 .. 1e8 units: 1e4 .. 1e8 x the size of the entity) (inside points for non-solid meshes only); caps 0.5*d, d+0.5, 2d+1, 0.25, 1.25, 5 (never within 1e-3 of the true distance d); max_angle in {0.1, 0.5, 1, 1.5, 2} rad with a 1e-6 rad undecided margin; transforms None / translation / quarter turn + translation; oracle = brute force over all segments / triangles, tolerance 1e-9 relative; NEAR-SURFACE: box 2x3x4 (solid and not), two-triangle strip, long thin quad, open roof x base points (every corner, two points inside every triangle edge, one inside every face) x 30 offset directions (6 axes, 24 of type (+-1,+-2,+-3)) x offsets 1e-7, 1e-6, 1e-5, 1e-4, 1e-3, 1e-2: closest point / distance / normal and Mesh::measure_point_deviation (ToPoint magnitude and sign, ToPlane) against the brute-force distance (below the documented 1e-6 epsilon the ToPoint magnitude is judged to 1e-6); UV WRAPPERS: Mesh::uv_with_tol on 3 UV-mapped meshes (open roof with the unfolded UV, two-triangle strip with uv = (x, y), box 2x3x4 with one chart per face) x integer / half-integer query grids reaching 1 beyond the bounding box plus far points (queries closer than 1e-6 skipped) x transform None / Some(translation) / Some(quarter turn + translation) / Some(0.7 rad about (1,2,3) + translation) / Some(1e-3 rad about x + translation) x caps {d+0.5, d/2, 0.25, 1.25} x max_angle {0.1, 0.5, 1, 1.5, 2}: nothing is returned beyond the cap, acceptance follows the angle of the offset of (transform * point) to the normal of the nearest face(s), uv / depth are those of a nearest non-rejecting face (brute force)");
     curves(&mut r);
     meshes(&mut r);
     near_surface(&mut r);
